@@ -151,6 +151,10 @@ def withMem (st : St) (m : Mem) : St := { st with mem := m }
 
 end St
 
+/-- ownership of a caller-owned object passes to the library (documented transfers) -/
+def freezeCaller (m : Mem) (a : Addr) : Mem :=
+  if ownerOf m a == some .caller then freeze m a else m
+
 def tNumber : Word := .tprim "number"
 def tString : Word := .tprim "string"
 def tBool : Word := .tprim "bool"
@@ -277,6 +281,15 @@ def popFrames : List Frame → List Frame
   | ⟨_, []⟩ :: rest => popFrames rest
   | fs => fs
 
+/-- the callback invocation in progress returns: its node is entered, i.e. its
+children are enumerated into a new frame -/
+def expandPending (m : Mem) (wk : Walker) : Mem × List Frame :=
+  match wk.pending with
+  | some (path, .pair t p) =>
+    let r := walkChildren m t p
+    (r.1, (⟨path, r.2⟩ : Frame) :: wk.frames)
+  | _ => (m, wk.frames)
+
 def boolTok (b : Bool) : List Tok := [.i (if b then 1 else 0)]
 
 /-- the caller's own mark set or the value's, as a list -/
@@ -292,7 +305,7 @@ def stepApi (st : St) : Api → Option St
   | .numberVal g => do
     let .num a ← st.go g | none
     let _ ← floatOf st.mem a
-    pure ((st.withMem (freeze st.mem a)).pushVal tNumber (.num a))
+    pure ((st.withMem (freezeCaller st.mem a)).pushVal tNumber (.num a))
   | .numberIntVal n =>
     let (m, a) := alloc st.mem .lib (.bigfloat n)
     some ((st.withMem m).pushVal tNumber (.num a))
@@ -534,8 +547,7 @@ def stepApi (st : St) : Api → Option St
     match s with
     | .slice arr _ _ _ => do
       let _ ← cellsOf st.mem arr
-      let m := if ownerOf st.mem arr == some .caller then freeze st.mem arr else st.mem
-      pure ((st.withMem m).pushVal (.ttuple s) .null)   -- observed through NullVal(type)
+      pure ((st.withMem (freezeCaller st.mem arr)).pushVal (.ttuple s) .null)   -- observed through NullVal(type)
     | _ => none
   -- TupleElementTypes(): the internal slice itself
   | .tupleElementTypes v => do
@@ -578,7 +590,7 @@ def stepApi (st : St) : Api → Option St
     let .set a ← st.go g | none
     let pw ← st.go p
     let m0 := match pw with
-      | .slice arr _ _ _ => if ownerOf st.mem arr == some .caller then freeze st.mem arr else st.mem
+      | .slice arr _ _ _ => freezeCaller st.mem arr
       | _ => st.mem
     let m ← setAdd equivPath m0 a pw h
     pure (st.withMem m)
@@ -605,11 +617,7 @@ def stepApi (st : St) : Api → Option St
   -- spare capacity, i.e. siblings SHARE the buffer
   | .walkNext w => do
     let wk ← st.wks[w]?
-    let (m0, frames) := match wk.pending with
-      | some (path, .pair t p) =>
-        let (m, kids) := walkChildren st.mem t p
-        (m, (⟨path, kids⟩ : Frame) :: wk.frames)
-      | _ => (st.mem, wk.frames)
+    let (m0, frames) := expandPending st.mem wk
     match popFrames frames with
     | [] => pure { st with mem := m0, wks := st.wks.set w ⟨none, []⟩, outs := st.outs ++ [[.o "done", .c]] }
     | ⟨_, []⟩ :: _ => none
@@ -725,20 +733,59 @@ def callerTarget (st : St) : Caller → Option Addr
     | _ => none
   | _ => none
 
-/-- does the step respect the documented ownership rules?  A caller action may
-write only objects the caller still owns; `PathSet.Add` and a new frozen type must
-not be given a slice the library is still writing (a walk's path buffer) -/
+/-- the slice `w` (if it is one) is over a backing array that is not library-owned -/
+def sliceWritable (m : Mem) : Word → Bool
+  | .slice arr _ _ _ => !frozenObj m arr
+  | _ => true
+
+/-- the storage a helper-set method writes — the bucket map at `a` and its bucket
+arrays — is not library-owned -/
+def setWritable (m : Mem) (a : Addr) : Bool :=
+  !frozenObj m a && match kvsOf m a with
+    | some kvs => kvs.all fun kv => sliceWritable m kv.2
+    | none => true
+
+/-- the path buffers of a running walk are not library-owned -/
+def walkerWritable (m : Mem) (wk : Walker) : Bool :=
+  (match wk.pending with
+    | some (p, _) => sliceWritable m p
+    | none => true) && wk.frames.all fun fr => sliceWritable m fr.path
+
+/-- does the step respect the documented ownership rules?
+* a caller action writes only an object the caller still owns;
+* `PathSet.Add` / `cty.Tuple` are not handed a slice the library is still writing
+  (a walk's path buffer) — copy it first, as the documentation of `Walk` says;
+* the receiver of a mutating helper-set method is a helper set (its storage is not
+  library-owned), and a walk's path buffer has not been given away.
+The last item is never violated by a history that starts from the empty state
+(`C20.receivers_writable`); it is a hypothesis only so that the frame theorems hold
+from ANY state. -/
 def respectful (st : St) : HeapOp → Bool
   | .caller c => match callerTarget st c with
     | some a => ownerOf st.mem a == some .caller
     | none => true
-  | .api (.psAdd _ p _) => match st.go p with
-    | some (.slice arr _ _ _) => ownerOf st.mem arr == some .caller || frozenObj st.mem arr
+  | .api (.vsAdd g _ _) | .api (.vsRemove g _ _) => match st.go g with
+    | some (.pair _ (.set a)) => setWritable st.mem a
     | _ => true
+  | .api (.psAdd g p _) =>
+    (match st.go g with
+      | some (.set a) => setWritable st.mem a
+      | _ => true) &&
+    (match st.go p with
+      | some (.slice arr _ _ _) => ownerOf st.mem arr == some .caller || frozenObj st.mem arr
+      | _ => true)
   | .api (.tupleType g) => match st.go g with
     | some (.slice arr _ _ _) => ownerOf st.mem arr == some .caller || frozenObj st.mem arr
     | _ => true
+  | .api (.walkNext w) => match st.wks[w]? with
+    | some wk => walkerWritable st.mem wk
+    | none => true
   | .api _ => true
+
+/-- every step of the history respects the ownership rules in the state it runs in -/
+def respectfulRun : St → List HeapOp → Bool
+  | _, [] => true
+  | st, op :: ops => respectful st op && respectfulRun ((step st op).getD st) ops
 
 end Heap
 end CtyModel
